@@ -504,8 +504,49 @@ func init() {
 			}
 		}
 		// consumption instants per match
-		t0 := time.Time{}
+		t0 := time.Time{}     // the instant the pipeline's expression is compiled
+		tStart := time.Time{} // the instant the bubble started (fs-log and consumption times count from here)
 		out := runPipeHook(rc, sc, simrt.Opts{MaxSteps: 150000, IdleLimit: time.Hour, FreeLimit: 24 * time.Hour}, func() {
+			tStart = time.Now()
+			if family == "time" && rc.Mode != simrt.ModeFree {
+				// sequential prelude on the fake clock: both forms are compiled now, evaluated some seconds later, and must
+				// agree with the clock and with each other (the clock of {time delta} starts when the expression is compiled,
+				// whether or not the optimiser looked at it)
+				tA := time.Now()
+				forms := []struct {
+					name string
+					ev   xEval
+				}{{"optimised", xCompile(funclib.NewKeyBuilder(), tpl)}, {"--no-optimize", xCompile(funclib.NewKeyBuilderEx(false), tpl)}}
+				num := regexp.MustCompile(`-?\d+`)
+				for _, pause := range []time.Duration{2500 * time.Millisecond, 1700 * time.Millisecond} {
+					time.Sleep(pause)
+					simrt.Yield("world:c10-prelude")
+					te := time.Now()
+					for _, f := range forms {
+						if f.ev.err != "" {
+							continue
+						}
+						sv, _ := xBuild(f.ev.kb, xEmptyCtx{})
+						v, err := strconv.ParseInt(num.FindString(sv), 10, 64)
+						if err != nil {
+							continue
+						}
+						var want int64
+						class := ""
+						switch {
+						case strings.Contains(tpl, "now"):
+							want, class = tA.Unix(), "time-now"
+						case strings.Contains(tpl, "live"):
+							want, class = te.Unix(), "time-live-frozen-or-wrong"
+						case strings.Contains(tpl, "delta"):
+							want, class = int64(te.Sub(tA)/time.Second), "time-delta-frozen-or-wrong"
+						}
+						if class != "" && (v < want-1 || v > want+1) {
+							rc.Violate(class, "[sequential, %s] template %q compiled at fake +0s and evaluated at +%v gives %d, expected %d (+-1)", f.name, tpl, te.Sub(tA), v, want)
+						}
+					}
+				}
+			}
 			t0 = time.Now()
 			if family == "timefuncs" {
 				loaded, lerr := funcfile.LoadDefinitions(funclib.NewKeyBuilder(), strings.NewReader(funcsText), "gen.funcs")
@@ -589,7 +630,7 @@ func init() {
 				maxCons = cons
 			}
 			readAt := c10ReadInstant(out.Sim, sc, m.Source, m.LineNumber)
-			lo, hi := t0.Add(readAt).Unix(), t0.Add(cons).Unix()
+			lo, hi := tStart.Add(readAt).Unix(), tStart.Add(cons).Unix()
 			base := t0.Unix()
 			switch {
 			case strings.Contains(tpl+funcsText, "now"):
